@@ -100,12 +100,15 @@ def build(chk):
                 return M.function('Linear', M.linear(terms, k)), sf
             used_ids = IDS[:2] if variant != 'all-used' else IDS
             obj = lin('o', used_ids)
-            ncons = P.choose(3) if variant == 'constraints' else 1
+            ncons = P.choose(3) if variant == 'constraints' else 2 if variant == 'all-used' else 1
+            # 'all-used': the lists of a message need not be sorted by id: constraints listed as 5,11 or 11,5, variables as 3,8,20 or 20,3,8
+            cid_order = [5, 11] if (variant != 'all-used' or P.choose(2) == 0) else [11, 5]
             cons = []
             for ci in range(ncons):
-                ids = [[IDS[0]], [IDS[1], IDS[0]], []][P.choose(3)] if variant == 'constraints' else [IDS[1], IDS[0]] if variant == 'representations' else [IDS[0]]
-                cons.append(Con([5, 11][ci], [EQ, LE][P.choose(2)], lin(f'g{ci}', ids, allow_const_only=True), name=f'name{ci}'))
-            spec = Inst(sense=sense, objective=obj, vars=[Var(IDS[i], kinds[i], bounds[i], name=f'v{i}') for i in range(3)], cons=cons)
+                ids = [[IDS[0]], [IDS[1], IDS[0]], []][P.choose(3)] if variant == 'constraints' else [IDS[1], IDS[0]] if variant == 'representations' else [[IDS[0]], [IDS[2], IDS[1]]][ci] if variant == 'all-used' else [IDS[0]]
+                cons.append(Con(cid_order[ci], [EQ, LE][P.choose(2)], lin(f'g{ci}', ids, allow_const_only=True), name=f'name{ci}'))
+            vorder = [0, 1, 2] if (variant != 'all-used' or P.choose(2) == 0) else [2, 0, 1]
+            spec = Inst(sense=sense, objective=obj, vars=[Var(IDS[i], kinds[i], bounds[i], name=f'v{i}') for i in vorder], cons=cons)
             inst = B.instance(spec)
 
             def witness(model):
